@@ -37,7 +37,7 @@ class Sim:
         self.probes = {}
         self.aliases = {}        # hash-dir -> stable alias
         self.phase = None
-        self.max_events = 200000
+        self.max_events = 2000000
         self.budget_hit = False
         self.quiet = 0           # >0: seams pass through silently (harness' own file work)
         self.clock = 0.0         # virtual seconds: advanced only by timed waits / sleeps
